@@ -7,6 +7,7 @@
   key-directed ones; after that only `pairsOf`, `keysOf`, `posOf` are reasoned about.
 -/
 import GoPipeline.Model.OMap
+import Batteries.Data.List.Basic  -- only for the standard `List.Forall₂` used in `C05_equal_iff`
 namespace GoPipeline.OMap
 variable {V : Type}
 
@@ -1046,8 +1047,10 @@ theorem aequal_eq_prefix (veq : V → V → Bool) (l l' : AMap V) :
     | nil => simp [aequal]
     | cons p' r' =>
       obtain ⟨k', v'⟩ := p'
-      simp only [aequal, aequalPrefix, ih, List.length_cons, Nat.add_right_cancel_iff, beq_iff_eq]
-      cases (k == k') <;> cases veq v v' <;> cases (r.length == r'.length) <;> simp
+      have hlen : (r.length + 1 == r'.length + 1) = (r.length == r'.length) := by
+        rw [Bool.eq_iff_iff]; simp
+      simp only [aequal, aequalPrefix, ih, List.length_cons, hlen]
+      cases (k == k') <;> cases veq v v' <;> cases (r.length == r'.length) <;> rfl
 
 theorem equal_eq {a b : CMap V} (ha : Inv a) (hb : Inv b) (veq : V → V → Bool) :
     equal veq (some a) (some b) = aequal veq (abs a) (abs b) := by
@@ -1095,5 +1098,165 @@ theorem aequal_iff (veq : V → V → Bool) (l l' : AMap V) :
       constructor
       · rintro ⟨⟨a, b⟩, c, d⟩; exact ⟨⟨a, c⟩, b, d⟩
       · rintro ⟨⟨a, c⟩, b, d⟩; exact ⟨⟨a, b⟩, c, d⟩
+
+/-! ## Renames from inside an iteration -/
+
+section RangeReplace
+variable {E : Type}
+
+theorem aRangeReplace_nil (f : String → V → Except E (String × V)) (done : AMap V) :
+    aRangeReplace f done [] = .ok done := by
+  rw [aRangeReplace]
+
+theorem aRangeReplace_cons_error {f : String → V → Except E (String × V)} {k : String} {v : V}
+    {e : E} (hf : f k v = .error e) (done rest : AMap V) :
+    aRangeReplace f done ((k, v) :: rest) = .error e := by
+  rw [aRangeReplace]; simp [hf]
+
+theorem aRangeReplace_cons_same {f : String → V → Except E (String × V)} {k : String} {v v' : V}
+    (hf : f k v = .ok (k, v')) (done rest : AMap V) :
+    aRangeReplace f done ((k, v) :: rest) = aRangeReplace f (done ++ [(k, v')]) rest := by
+  rw [aRangeReplace]; simp [hf]
+
+theorem aRangeReplace_cons_ne {f : String → V → Except E (String × V)} {k k' : String} {v v' : V}
+    (hf : f k v = .ok (k', v')) (hne : k' ≠ k) (done rest : AMap V) :
+    aRangeReplace f done ((k, v) :: rest) =
+      aRangeReplace f (adelete done k' ++ [(k', v')]) (adelete rest k') := by
+  rw [aRangeReplace]; simp [hf, hne]
+
+/-- "The concrete result refines the abstract one", for `Except`-valued loops. -/
+def RefinesRes (r : Except E (CMap V)) (a : Except E (AMap V)) : Prop :=
+  match r with
+  | .ok c' => Inv c' ∧ a = .ok (abs c')
+  | .error e => a = .error e
+
+/-- Shape of the slot array after `Replace(s.key, s.key, v')` issued while standing on `s`. -/
+theorem replace_items_same {c : CMap V} (h : Inv c) {A B : List (Slot V)} {s : Slot V}
+    (hi : c.items = A ++ s :: B) (hd : s.deleted = false) (v' : V) :
+    (replace c s.key s.key v').items = A ++ { key := s.key, val := v' } :: B := by
+  have hnd : (keysOf A ++ s.key :: keysOf B).Nodup := by
+    have := h.keys; rw [hi] at this
+    simpa [keysOf_append, keysOf_cons, hd] using this
+  have hA : s.key ∉ keysOf A := by
+    intro hm
+    rw [List.nodup_append] at hnd
+    exact hnd.2.2 _ hm _ List.mem_cons_self rfl
+  cases hp : posOf s.key 0 c.items with
+  | none =>
+    exfalso
+    apply (posOf_eq_none_iff _ 0 _).1 hp
+    rw [hi]; simp [keysOf_append, keysOf_cons, hd]
+  | some i =>
+    rw [replace_same_some h hp]
+    simp only [hi]
+    rw [modFirstLive_append_of_not_mem _ _ hA]
+    simp [modFirstLive, hd]
+
+/-- Shape of the slot array after `Replace(s.key, k', v')`, `k' ≠ s.key`, issued while standing on `s`. -/
+theorem replace_items_ne {c : CMap V} (h : Inv c) {A B : List (Slot V)} {s : Slot V}
+    (hi : c.items = A ++ s :: B) (hd : s.deleted = false) {k' : String} (hne : k' ≠ s.key) (v' : V) :
+    (replace c s.key k' v').items =
+      modFirstLive k' tomb A ++ { key := k', val := v' } :: modFirstLive k' tomb B := by
+  have hnd : (keysOf A ++ s.key :: keysOf B).Nodup := by
+    have := h.keys; rw [hi] at this
+    simpa [keysOf_append, keysOf_cons, hd] using this
+  have hndA : (keysOf A).Nodup := (List.nodup_append.1 hnd).1
+  have hA : s.key ∉ keysOf A := by
+    intro hm
+    rw [List.nodup_append] at hnd
+    exact hnd.2.2 _ hm _ List.mem_cons_self rfl
+  have hsk : ¬ s.key = k' := fun e => hne e.symm
+  have hT : modFirstLive k' tomb (A ++ s :: B) =
+      modFirstLive k' tomb A ++ s :: modFirstLive k' tomb B := by
+    by_cases hm : k' ∈ keysOf A
+    · have hB : k' ∉ keysOf B := by
+        intro hb
+        rw [List.nodup_append] at hnd
+        exact hnd.2.2 _ hm _ (List.mem_cons_of_mem _ hb) rfl
+      rw [modFirstLive_append_of_mem _ _ hm, modFirstLive_of_not_mem _ hB]
+    · rw [modFirstLive_append_of_not_mem _ _ hm, modFirstLive_of_not_mem _ hm]
+      simp [modFirstLive, hd, hsk]
+  cases hp : posOf s.key 0 c.items with
+  | none =>
+    exfalso
+    apply (posOf_eq_none_iff _ 0 _).1 hp
+    rw [hi]; simp [keysOf_append, keysOf_cons, hd]
+  | some i =>
+    rw [replace_ne_some h hsk hp]
+    simp only [hi, hT]
+    have hA' : s.key ∉ keysOf (modFirstLive k' tomb A) := by
+      rw [mem_keysOf_tomb hndA]; exact fun hm => hA hm.1
+    rw [modFirstLive_append_of_not_mem _ _ hA']
+    simp [modFirstLive, hd]
+
+theorem rangeReplaceLoop_refines (f : String → V → Except E (String × V)) :
+    ∀ (n : Nat) (c : CMap V) (A B : List (Slot V)), Inv c → c.items = A ++ B → B.length = n →
+      RefinesRes (rangeReplaceLoop f n A.length c) (aRangeReplace f (pairsOf A) (pairsOf B)) := by
+  intro n
+  induction n with
+  | zero =>
+    intro c A B h hi hn
+    have : B = [] := by simpa using hn
+    subst this
+    simp only [rangeReplaceLoop, RefinesRes, pairsOf_nil, aRangeReplace_nil]
+    refine ⟨h, ?_⟩
+    simp [abs, hi]
+  | succ n ih =>
+    intro c A B h hi hn
+    cases B with
+    | nil => simp at hn
+    | cons s B =>
+      have hn' : B.length = n := by simpa using hn
+      have hget : c.items[A.length]? = some s := by simp [hi]
+      simp only [rangeReplaceLoop, hget]
+      by_cases hd : s.deleted = true
+      · simp only [hd, ↓reduceIte]
+        have := ih c (A ++ [s]) B h (by simp [hi]) hn'
+        simpa [pairsOf_append, pairsOf_cons, hd] using this
+      · have hd' : s.deleted = false := by simpa using hd
+        simp only [hd', Bool.false_eq_true, ↓reduceIte, pairsOf_cons]
+        have hnd : (keysOf A ++ s.key :: keysOf B).Nodup := by
+          have := h.keys; rw [hi] at this
+          simpa [keysOf_append, keysOf_cons, hd'] using this
+        have hndA : (keysOf A).Nodup := (List.nodup_append.1 hnd).1
+        have hndB : (keysOf B).Nodup := ((List.nodup_append.1 hnd).2.1).of_cons
+        cases hf : f s.key s.val with
+        | error e =>
+          simp only [RefinesRes]
+          exact aRangeReplace_cons_error hf _ _
+        | ok kv =>
+          obtain ⟨k', v'⟩ := kv
+          simp only
+          have hc2 := inv_replace h s.key k' v'
+          by_cases hk : k' = s.key
+          · subst hk
+            rw [aRangeReplace_cons_same hf]
+            have hi2 := replace_items_same h hi hd' v'
+            have := ih _ (A ++ [{ key := s.key, val := v' }]) B hc2 (by simp [hi2]) hn'
+            simpa [pairsOf_append, pairsOf_cons] using this
+          · rw [aRangeReplace_cons_ne hf hk]
+            have hi2 := replace_items_ne h hi hd' hk v'
+            have := ih _ (modFirstLive k' tomb A ++ [{ key := k', val := v' }])
+              (modFirstLive k' tomb B) hc2 (by simp [hi2])
+              (by rw [length_modFirstLive]; exact hn')
+            simpa [pairsOf_append, pairsOf_cons, pairsOf_tomb hndA, pairsOf_tomb hndB,
+              length_modFirstLive] using this
+
+theorem rangeReplace_refines {c : CMap V} (h : Inv c) (f : String → V → Except E (String × V)) :
+    (match rangeReplace f c with
+     | .ok c' => Inv c' ∧ aRangeReplace f [] (abs c) = .ok (abs c')
+     | .error e => aRangeReplace f [] (abs c) = .error e) := by
+  change RefinesRes (rangeReplace f c) (aRangeReplace f [] (abs c))
+  unfold rangeReplace
+  by_cases hz : isZero c = true
+  · simp only [hz, ↓reduceIte, RefinesRes]
+    refine ⟨h, ?_⟩
+    rw [isZero_eq h] at hz
+    have : abs c = [] := by simpa using hz
+    rw [this, aRangeReplace_nil]
+  · simp only [hz, Bool.false_eq_true, ↓reduceIte]
+    exact rangeReplaceLoop_refines f c.items.length c [] c.items h rfl rfl
+
+end RangeReplace
 
 end GoPipeline.OMap
